@@ -508,6 +508,8 @@ class PeriodicHarness:
         e_count, e_dt = env.lookup_env("count"), env.lookup_env("dt")
         if e_count is None or e_dt is None:
             raise Unsupported("timer tick: no `count` / `dt` cells (drift)")
+        from .cells import require_known
+        require_known(A, {"count", "dt"}, uid)
         n, dt = ctx.fresh("n", "int"), ctx.fresh("dt", "int")
         e_count.vars["count"], e_dt.vars["dt"] = n, dt
         w.log.clear()
